@@ -391,7 +391,13 @@ class DataFormat(object):
                 KEY_THOUSANDS_SEPARATOR, value, _VALID_THOUSANDS_SEPARATORS, location
             )
         else:
-            assert False, "name=%r" % name
+            # Names of internal attributes such as "format" or "is valid" are no properties that can be set.
+            valid_property_names = _tools.human_readable_list(list(self.__dict__.keys()))
+            raise errors.InterfaceError(
+                "data format property %s for format %s is %s but must be one of %s"
+                % (_compat.text_repr(name), self.format, _compat.text_repr(value), valid_property_names),
+                location,
+            )
 
     @staticmethod
     def _validated_choice(key, value, choices, location, ignore_case=False):
